@@ -4,6 +4,9 @@ Confirms a seeded change independently (applies cleanly, stable baseline still p
 then applies it to /repo, runs ./check <PROP> --tier quick, restores /repo, and stores everything under /verif/seeded/<name>/."""
 import json, os, shutil, subprocess, sys, time
 prop, src, name = sys.argv[1], sys.argv[2], sys.argv[3]
+# VERIF_ROOT / VERIF_REPO: a private copy of /verif and of /repo (parallel evaluation, tools/seed_eval_all.sh); results always go to /verif/seeded
+ROOT = os.environ.get('VERIF_ROOT', '/verif')
+REPO = os.environ.get('VERIF_REPO', '/repo')
 wt = '/tmp/seedeval_%s' % name
 out = '/verif/seeded/%s' % name
 def sh(cmd, **kw):
@@ -28,14 +31,14 @@ finally:
 meta['confirmed'] = bool(meta.get('applies_cleanly') and meta.get('baseline_ok') and meta.get('demo_without_change_exit') == 0 and meta.get('demo_with_change_exit') not in (0, None))
 # run our check against it (exclusive lock on /repo: no other check may read it while it is patched)
 import fcntl
-gate = open('/verif/.repo.gate', 'w'); fcntl.flock(gate, fcntl.LOCK_EX)
-lockf = open('/verif/.repo.lock', 'w'); fcntl.flock(lockf, fcntl.LOCK_EX)
+gate = open(ROOT + '/.repo.gate', 'w'); fcntl.flock(gate, fcntl.LOCK_EX)
+lockf = open(ROOT + '/.repo.lock', 'w'); fcntl.flock(lockf, fcntl.LOCK_EX)
 fcntl.flock(gate, fcntl.LOCK_UN)
-assert sh('git -C /repo status --porcelain').stdout.strip() == '', '/repo not clean'
+assert sh('git -C %s status --porcelain' % REPO).stdout.strip() == '', REPO + ' not clean'
 t0 = time.time()
 try:
-    a = sh('git -C /repo apply %s/patch.diff' % src)
-    c = sh('VERIF_NOLOCK=1 /verif/check %s --tier quick' % prop, cwd='/verif')
+    a = sh('git -C %s apply %s/patch.diff' % (REPO, src))
+    c = sh('VERIF_NOLOCK=1 VERIF_REPO=%s %s/check %s --tier quick' % (REPO, ROOT, prop), cwd=ROOT)
     meta['check_exit'] = c.returncode
     meta['check_lines'] = [l for l in c.stdout.split('\n') if l.startswith(('VIOLATION', 'KNOWN-FINDING', 'PASS', 'FAIL', 'ERROR'))][:12]
     rp = [l.split('replay=')[1].split()[0] for l in c.stdout.split('\n') if l.startswith('VIOLATION')]
@@ -43,7 +46,7 @@ try:
         try: meta['first_replay'] = json.load(open(rp[0]))
         except Exception as e: meta['first_replay'] = str(e)
 finally:
-    sh('git -C /repo checkout -- .')
+    sh('git -C %s checkout -- .' % REPO)
     fcntl.flock(lockf, fcntl.LOCK_UN)
 meta['check_wall_s'] = round(time.time() - t0)
 meta['detected'] = meta.get('check_exit') == 1
